@@ -50,6 +50,16 @@ CHECKS.update({
                      "and all (pairs of) default tokens of the look-alike universe; on the real code every case must call the constructor "
                      "exactly once, bind present fields to loaded values, and leave absent fields typed-equal (identical for singletons, "
                      "fresh for factories) to the declared default, for plain / dataclass / attrs / NamedTuple classes."),
+    "C14": dict(technique="TLA+ spec Convert.tla (documented Coercible relation + value-set semantics) model-checked by TLC through MC_Convert.tla "
+                          "(reflexive, as-is rules type-sound, compound rules monotone); every ordered type pair x context replayed on get_converter",
+                category="model_checking", design_ref="6/C14",
+                note="trusts: conforms()/sample_values() as runtime reading of static types; Optional read as typing does; bounded pool "
+                     "(34 / 46 types x 4 contexts); one-field dataclass models as carriers",
+                text="TLC checks that the documented coercion relation is reflexive, that its pass-through rules are sound w.r.t. a value-set "
+                     "semantics of types and that coercibility is preserved by the compound rules, and enumerates all ordered pairs of the "
+                     "pool in 4 contexts; the real get_converter must refuse every pair outside the relation (with a witness value when it "
+                     "does not) and every created converter must put only values of the destination's static type into the destination; "
+                     "unlinked required / optional fields are refused under the default policy."),
     "C15": dict(technique="TLA+ spec PyTypes.tla (hints as written, Denote, rewriting machine) model-checked by TLC: preserving rewrites keep "
                           "the denotation; every transition replayed on normalize_type, loaders, dumpers and predicates",
                 category="model_checking", design_ref="6/C15",
